@@ -70,6 +70,8 @@ def floatKey (n : Nat) (bits : Int) : Int :=
 
 def compareInt (a b : Int) : Ordering := if a < b then .lt else if b < a then .gt else .eq
 
+def compareNat (a b : Nat) : Ordering := if a < b then .lt else if b < a then .gt else .eq
+
 /-- lexicographic comparison of two lists under an element comparison; a proper prefix is
 smaller (the order of list values) -/
 def lexCompare {α} (cmp : α → α → Ordering) : List α → List α → Ordering
